@@ -27,7 +27,8 @@ CONCAT_ASSUME = COMMON_ASSUME + [
 ]
 PROPS["C16"] = {
     "lean_modules": ["BV.Props.C16"],
-    "stages": [{"name": "concat", "cmd": ["concat", "bytes"]}],
+    "stages": [{"name": "concat", "cmd": ["concat", "bytes"]},
+               {"name": "concat-dbgsem", "cmd": ["concat", "bytes"], "profile": "dbgsem"}],
     "level_text": "Proof: Lean 4 theorems over a complete line-by-line model of the concatenator: an invariant Inv holds initially and is preserved by new_brotli_file/stream/finish on ARBITRARY input bytes and capacities; under Inv no panic site of the model (about 60, one per Rust index/subtraction/assert/unwrap) is reachable; cursors stay within the buffers; header parsers are total; every call makes progress or returns a code the protocol can act on. Tied to the code by running model and implementation on identical call sequences (every 2-byte prefix x continuations, mutated/truncated/random members, all slicings down to 1 byte and zero-capacity calls).",
     "level_note": "Trusted: Lean kernel + 3 standard axioms, the hand-written model BV/Model/Concat.lean (tied by correspondence, sampled), harness. Hypothesis `Started` (new_brotli_file was called before stream) is the documented API protocol.",
     "technique": "Lean 4 invariant proof over executable model + model/implementation correspondence on recorded call sequences",
@@ -58,7 +59,8 @@ PROPS["C03"] = {
 
 PROPS["C07"] = {
     "lean_modules": ["BV.Props.C07"],
-    "stages": [{"name": "pool", "cmd": ["pool"]}],
+    "stages": [{"name": "pool", "cmd": ["pool"]},
+               {"name": "multi-c07", "cmd": ["multi", "c07"]}],
     "level_text": "Proof (liveness stated over finite prefixes with finitely many spurious wake-ups): Lean 4 theorems over a labelled transition system of the worker pool (one transition per critical section; condition variable as an explicit wait set with notify_all and spurious wake-ups; Arc strong count of the shared input; FixedQueue modelled concretely incl. its swap-into-hole removal), for ANY number of workers >= 1, any contract-abiding program (any number of batches of <= MAX_THREADS jobs, any join order) and ANY interleaving: an inductive invariant; no unwrap()/assert can fire; each job runs exactly once; each join returns its own job's value; the input's strong count is 1 once everything is joined; no lost wake-up; deadlock freedom; a potential function bounding the number of thread steps (termination); drop stops every worker; reusability. MAX_THREADS is the generated constant. Tied to the code by running the REAL pool under a deterministic scheduler shim and replaying the recorded schedule in the model: per-step traces must be equal.",
     "level_note": "Trusted: Lean kernel + 3 standard axioms; the LTS granularity (one atomic step per critical section) is justified by the mutex, and mutual exclusion / data-race freedom by safe Rust; OS scheduler fairness and the hardware memory model are outside the model. Under cfg(brotli_verif) worker_pool.rs takes Mutex/Condvar/spawn/JoinHandle from src/enc/verif_sched.rs (real threads, one runnable at a time); with the guard off the std primitives are used. The caller contract (<= 15 un-joined jobs at each spawn) is what CompressMulti guarantees; contract_is_needed shows the panic outside it.",
     "technique": "Lean 4 invariant/refinement proof over an LTS + trace correspondence of the real pool under a deterministic scheduler shim",
